@@ -1,13 +1,121 @@
-(* C27 — property theorems only. *)
-From Coq Require Import List NArith Bool.
+(* C27 — property theorems only.  The general theorems are stated inside a Section: they hold for EVERY type of
+   names / raw values / parsed values, every case-folding function `lower`, every parameter table `known`, every
+   parse function, every set of sources `srcs` listed in strictly descending priority (all > 0, the value of
+   "<default>"), every Source.Local predicate, every configuration and every key order.  coq/gen/C27/PropsGen.v
+   instantiates them with the table and source order TRANSLATED from the Go code on every run. *)
+From Coq Require Import List NArith Bool Permutation.
 From Verif.C27 Require Import Model Spec Proofs.
 Import ListNotations.
 Open Scope N_scope.
 
-(* One loop iteration on a local-only parameter read from a datastore source changes nothing, whatever the value. *)
-Theorem c27_local_only_step_skipped :
-  forall (K R V : Type) keqb lower is_none known parse src_local fixed src st (k : K) (rv : R) (m : pmeta K V),
+Section General.
+  Variables K R V : Type.
+  Variable keqb : K -> K -> bool.
+  Variable lower : K -> K.
+  Variable is_none : R -> bool.
+  Variable known : K -> option (pmeta K V).
+  Variable parse : K -> R -> option V.
+  Variable src_local : N -> bool.
+  Variable kleb : K -> K -> bool.
+  Variable srcs : list N.
+  Hypothesis keqb_eq : forall a b, keqb a b = true <-> a = b.
+  Hypothesis known_name : forall lk m, known lk = Some m -> lower (pm_name m) = lk.
+  Hypothesis srcs_desc : sdesc srcs.
+  Hypothesis srcs_pos : forall s, In s srcs -> 0 < s.
+
+  Notation resolve' := (resolve keqb kleb lower is_none known parse srcs src_local).
+  Notation spec_outcome' := (spec_outcome K R V keqb lower is_none parse src_local srcs).
+  Notation SpecFatal' := (SpecFatal K R V keqb lower is_none known parse src_local srcs).
+  Notation res_equiv' := (res_equiv K R V keqb known).
+  Notation differ_only' := (differ_only K R V keqb lower).
+
+  (* The loop of resolve() computes exactly what the property says, for BOTH code variants as far as values go:
+     on success every parameter has the value of the highest-priority source that sets it (deciding = first source in
+     priority order with an eligible entry for the name up to case): its parsed value, the zero value for 'none', the
+     default if invalid and not fatal; the initial default if no source sets it.  resolve fails iff
+       fixed = true : the DECIDING source of some parameter holds a fatal value (invalid + die-on-fail, 'none' + non-zero);
+       fixed = false: ANY eligible source of some parameter holds a fatal value (the pinned code: shadowed values too). *)
+  Theorem c27_highest_source_decides : forall fixed (c : cfg K R),
+    match resolve' fixed false c with
+    | None => SpecFatal' fixed c
+    | Some st => ~ SpecFatal' fixed c
+                 /\ forall lk m, known lk = Some m -> Some (effective keqb st m) = spec_outcome' c m
+    end.
+  Proof. exact (resolve_spec K R V keqb lower is_none known parse src_local kleb srcs keqb_eq known_name srcs_desc srcs_pos). Qed.
+
+  (* Repaired code (shadow check before parsing): changing, removing or adding what a lower-priority source s0 says about
+     a parameter that a higher-priority source s1 decides changes neither any parameter's value nor the error outcome. *)
+  Theorem c27_shadowed_irrelevant : forall (c c' : cfg K R) s0 s1 lk0 m0,
+    known lk0 = Some m0 -> deciding keqb lower srcs src_local c m0 = Some s1 -> s0 < s1 ->
+    differ_only' c c' s0 m0 ->
+    res_equiv' (resolve' true false c) (resolve' true false c').
+  Proof. exact (shadowed_irrelevant_fixed K R V keqb lower is_none known parse src_local kleb srcs keqb_eq known_name srcs_desc srcs_pos). Qed.
+
+  (* Both variants: whatever a non-local (datastore) source says about a local-only parameter is irrelevant. *)
+  Theorem c27_local_only_ignored_from_datastore : forall fixed (c c' : cfg K R) s0 lk0 m0,
+    known lk0 = Some m0 -> pm_local m0 = true -> src_local s0 = false ->
+    differ_only' c c' s0 m0 ->
+    res_equiv' (resolve' fixed false c) (resolve' fixed false c').
+  Proof. exact (local_only_ignored K R V keqb lower is_none known parse src_local kleb srcs keqb_eq known_name srcs_desc srcs_pos). Qed.
+
+  (* Both variants: for every permutation of the keys of every source (= every Go map iteration order) the result is
+     the same, PROVIDED no source spells a parameter name in two ways.  (Without the proviso the pinned code depends on
+     the order: c27_order_independent_refuted_unsorted.) *)
+  Theorem c27_order_independent : forall fixed (c c' : cfg K R),
+    unambiguous K R lower c -> (forall s, Permutation (src_kvs c s) (src_kvs c' s)) ->
+    res_equiv' (resolve' fixed false c) (resolve' fixed false c').
+  Proof. exact (order_independent_unsorted K R V keqb lower is_none known parse src_local kleb srcs keqb_eq known_name srcs_desc srcs_pos). Qed.
+
+  (* One loop iteration on a local-only parameter read from a datastore source changes nothing, whatever the value. *)
+  Theorem c27_local_only_step_skipped : forall fixed src st (k : K) (rv : R) (m : pmeta K V),
     known (lower k) = Some m -> pm_local m = true -> src_local src = false ->
     step keqb lower is_none known parse src_local fixed src st (k, rv) = Some st.
-Proof. exact step_local_skipped. Qed.
+  Proof. exact (step_local_skipped K R V keqb lower is_none known parse src_local). Qed.
+End General.
+Print Assumptions c27_highest_source_decides.
+Print Assumptions c27_shadowed_irrelevant.
+Print Assumptions c27_local_only_ignored_from_datastore.
+Print Assumptions c27_order_independent.
 Print Assumptions c27_local_only_step_skipped.
+
+From Coq Require Import String.
+Open Scope string_scope.
+(* ---- refutations on the faithful model of the PINNED code (fixed = false / sorted = false), by computation on a
+   one-parameter table; the same inputs are in the driver's corpus and are replayed on the real code ---- *)
+Definition t_known : bytes -> option bmeta :=
+  known_in [(b "chaininsertmode", mk_pmeta (b "ChainInsertMode") false true true (b "zero") (b "insert") (b "insert"));
+            (b "healthhost", mk_pmeta (b "HealthHost") false false false (b "zero") (b "localhost") (b "localhost"))].
+Definition t_parse (name rv : bytes) : option bytes :=
+  if beqb rv (b "append") || beqb rv (b "insert") || beqb rv (b "1.2.3.4") then Some rv else None.
+Definition t_local (s : N) : bool := (4 <=? s)%N.
+Definition t_resolve fixed sorted := resolve beqb bleb lower_b is_none_b t_known t_parse [6; 5; 4; 3; 2; 1] t_local fixed sorted.
+Definition t_value fixed sorted c name :=
+  match t_resolve fixed sorted c, t_known (lower_b name) with
+  | Some st, Some m => Some (effective beqb st m)
+  | _, _ => None
+  end.
+
+(* env ChainInsertMode=append shadows the datastore's ChainInsertMode; the shadowed value "garbage" makes the pinned
+   code fail although the configurations differ only in that shadowed entry (hypotheses of c27_shadowed_irrelevant). *)
+Definition w_c : cfg bytes bytes := [(5, [(b "chaininsertmode", b "append")]); (1, [(b "ChainInsertMode", b "insert")])].
+Definition w_c' : cfg bytes bytes := [(5, [(b "chaininsertmode", b "append")]); (1, [(b "ChainInsertMode", b "garbage")])].
+Theorem c27_shadowed_irrelevant_refuted_unfixed :
+  deciding beqb lower_b [6; 5; 4; 3; 2; 1] t_local w_c (mk_pmeta (b "ChainInsertMode") false true true (b "zero") (b "insert") (b "insert")) = Some 5
+  /\ differ_only bytes bytes bytes beqb lower_b w_c w_c' 1 (mk_pmeta (b "ChainInsertMode") false true true (b "zero") (b "insert") (b "insert"))
+  /\ t_value false false w_c (b "ChainInsertMode") = Some (b "append")
+  /\ t_resolve false false w_c' = None
+  /\ t_value true false w_c' (b "ChainInsertMode") = Some (b "append").
+Proof. repeat split; vm_compute; try reflexivity. intros s Hs. destruct s as [|[p|p|]]; try reflexivity. exfalso; apply Hs; reflexivity. Qed.
+Print Assumptions c27_shadowed_irrelevant_refuted_unfixed.
+
+(* one source spells HealthHost in two ways: the pinned code's result depends on the order of the keys; with sorted keys
+   (fixes/C27-deterministic-key-order.patch) it does not *)
+Definition w_o1 : cfg bytes bytes := [(4, [(b "HealthHost", b "1.2.3.4"); (b "healthhost", b "!!")])].
+Definition w_o2 : cfg bytes bytes := [(4, [(b "healthhost", b "!!"); (b "HealthHost", b "1.2.3.4")])].
+Theorem c27_order_independent_refuted_unsorted :
+  Permutation (src_kvs w_o1 4) (src_kvs w_o2 4)
+  /\ t_value false false w_o1 (b "HealthHost") = Some (b "localhost")
+  /\ t_value false false w_o2 (b "HealthHost") = Some (b "1.2.3.4")
+  /\ t_value false true w_o1 (b "HealthHost") = t_value false true w_o2 (b "HealthHost").
+Proof. repeat split; try (vm_compute; reflexivity). apply perm_swap. Qed.
+Print Assumptions c27_order_independent_refuted_unsorted.
